@@ -560,7 +560,13 @@ func (g *Gen) pipe(d int) N {
 	// x | f | g : stages after the first are callables taking one argument
 	stages := []any{g.texpr(d-1, "int")}
 	for i, n := 0, 1+g.R.Intn(2); i < n; i++ {
-		if g.chance(3) {
+		if g.chance(4) {
+			// a stage that is a call with further arguments, themselves calls: the piped value becomes the FIRST
+			// argument of the stage, the calls in the other arguments are evaluated as usual
+			two := N{"k": "func", "name": "", "params": []any{N{"n": "pa", "hasdef": false, "def": Nil()}, N{"n": "pb", "hasdef": false, "def": Nil()}},
+				"body": []any{N{"k": "return", "has": true, "e": List(Id("pa"), Id("pb"))}}}
+			stages = append(stages, Call(two, Call(Id("len"), List(g.texpr(d-1, "int"), Int(g.R.Intn(5))))))
+		} else if g.chance(3) {
 			stages = append(stages, Id(g.pick([]string{"string", "type", "int"})))
 		} else {
 			stages = append(stages, g.callback(d, 1))
